@@ -131,6 +131,7 @@ func init() { props["C01"] = propC01 }
 func propC01(c *Ctx) {
 	r := c.rep
 	c.focusEntropies(func(li int, e []byte) { c.enc("focus-word", int64(langVals[li]), e) })
+	c.officialEncodings()
 	r.Rule = "enc ops (NewMnemonicByEntropy) over directed entropy classes for 5 sizes x 10 languages; every value of the first SHA-256 byte per width; (word position, 11-bit index) pairs; compared with Spec.sentence (bit-string BIP39 over the canonical lists, Lean SHA-256) and with the Lean model. Non-trivial = distinct ops whose implementation answer is a mnemonic."
 	for li := range langVals {
 		l := int64(langVals[li])
